@@ -274,6 +274,31 @@ def kani_cmd(crate, harness_full, target, jobs, timeout_s, playback=False, extra
     return cmd
 
 
+def recursion_unwindset(target, crate, bounds):
+    """CBMC arguments bounding the recursion depth of the named functions (`module::path::fn` inside `crate`) separately
+    from the loop bound.  CBMC wants the symbol name; rustc's v0 mangling of a free function is
+    _RNv Nt* <crate disambiguator+name> <len module>... <len fn>, and the crate disambiguator is read from the names of
+    the goto binaries an earlier build left in the target directory."""
+    cname = crate.replace("-", "_")
+    dis = None
+    for root, _dirs, files in os.walk(os.path.join(target, "kani")):
+        for f in files:
+            m = re.search(r"__RNv(?:Nt)*(Cs[0-9A-Za-z]+_)%d%s\d" % (len(cname), cname), f)
+            if m:
+                dis = m.group(1)
+                break
+        if dis:
+            break
+    if not dis:
+        return None
+    sets = []
+    for path, n in sorted(bounds.items()):
+        parts = path.split("::")
+        sym = "_RNv" + "Nt" * (len(parts) - 1) + dis + "%d%s" % (len(cname), cname) + "".join("%d%s" % (len(x), x) for x in parts)
+        sets.append("%s:%d" % (sym, int(n)))
+    return ["--cbmc-args", "--unwindset", ",".join(sets)]
+
+
 def compile_error_summary(out):
     errs = re.findall(r"^(error(?:\[E\d+\])?: .*(?:\n\s+--> .*)?)", out, re.M)
     return errs[:8]
@@ -386,15 +411,35 @@ def run_property(pid):
     kani_out = ""
     build_s = 0.0
     mir_results = []
+    cbmc_extra = {}
     try:
         ov.create(spec["overlays"], seed=seed)
         ov.seed_target()
         # ---------------- Kani harnesses
         if harnesses:
-            by_crate = {}
+            # one cargo-kani invocation per (crate, recursion bounds); harnesses without recursion bounds first, so
+            # that the goto binaries the symbol names are read from exist
+            groups = {}
             for h in harnesses:
-                by_crate.setdefault(crate_of(h["file"]), []).append(h)
-            for crate, hs in by_crate.items():
+                rb = json.dumps(h.get("recursion_bound") or {}, sort_keys=True)
+                groups.setdefault((crate_of(h["file"]), rb), []).append(h)
+            for (crate, rb), hs in sorted(groups.items(), key=lambda kv: (kv[0][1] != "{}", kv[0][0])):
+                extra = None
+                rbounds = json.loads(rb)
+                if rbounds:
+                    extra = recursion_unwindset(ov.target, crate, rbounds)
+                    if extra is None:
+                        # nothing built yet for this crate in this run: code generation only, then look again
+                        names = [(module_path(h["file"]) + "::" if module_path(h["file"]) else "") + "verif_kani::" + h["fn"] for h in hs]
+                        run_limited(kani_cmd(crate, names[:1], ov.target, 1, 60, extra=["--only-codegen"]), ov.src, 1500,
+                                    os.path.join(ov.root, f"kani-{crate}-codegen.log"))
+                        extra = recursion_unwindset(ov.target, crate, rbounds)
+                    if extra is None:
+                        for h in hs:
+                            inconclusive.append(dict(kind="setup", harness=h["fn"], detail="symbol names for the recursion bound not found"))
+                        continue
+                    for h in hs:
+                        cbmc_extra[h["fn"]] = extra
                 full = {}
                 for h in hs:
                     mp = module_path(h["file"])
@@ -406,8 +451,8 @@ def run_property(pid):
                 # concrete playback in the main run only for cheap single-harness checks: trace generation for the
                 # heavy harnesses (C09/C23) makes CBMC run out of memory (status 6)
                 main_pb = jobs == 1 and all(h.get("witness") for h in hs)
-                cmd = kani_cmd(crate, list(full), ov.target, jobs, tmax, playback=main_pb)
-                logf = os.path.join(ov.root, f"kani-{crate}.log")
+                cmd = kani_cmd(crate, list(full), ov.target, jobs, tmax, playback=main_pb, extra=extra)
+                logf = os.path.join(ov.root, f"kani-{crate}{'-rb' if rbounds else ''}.log")
                 # overall cap: all harnesses could serialise on `jobs` workers
                 waves = (len(hs) + jobs - 1) // jobs
                 cap = 400 + tmax * waves * 1.2
@@ -436,7 +481,7 @@ def run_property(pid):
                        and results.get(h["fn"], {}).get("status") == "SUCCESSFUL"}
                 if wit:
                     wt = int(spec.get("witness_timeout", 120))
-                    cmd = kani_cmd(crate, list(wit), ov.target, 1, wt, playback=True)
+                    cmd = kani_cmd(crate, list(wit), ov.target, 1, wt, playback=True, extra=extra)
                     rc, out, to, wall = run_limited(cmd, ov.src, wt * len(wit) + 200,
                                                     os.path.join(ov.root, f"kani-{crate}-witness.log"))
                     for name, pr in parse_kani(out).items():
@@ -492,7 +537,7 @@ def run_property(pid):
                     mp = module_path(r["file"])
                     name = (mp + "::" if mp else "") + "verif_kani::" + fn
                     cmd = kani_cmd(crate_of(r["file"]), [name], ov.target, 1,
-                                   hspec.get("timeout", 300) * 2, playback=True)
+                                   hspec.get("timeout", 300) * 2, playback=True, extra=cbmc_extra.get(fn))
                     rc, out, to, wall = run_limited(cmd, ov.src, hspec.get("timeout", 300) * 2 + 300,
                                                     os.path.join(ov.root, "kani-pb.log"))
                     pr = parse_kani(out).get(name, {})
